@@ -10,7 +10,8 @@
    MCNP_Object._wrap_line (tabs expanded first; fit test; 'c' comment lines whose C is within the first five columns
    of the written line; split at the first '$'; comment appended / started on a short last data line / continued
    with "     $ "; a blank prefix of half the width or more is replaced by the continuation indent), the blank-line
-   filters and per-line loop of wrap_string_for_mcnp, Message/Title truncation.
+   filters and per-line loop of wrap_string_for_mcnp; Message.__init__ / Message.format_for_mcnp_input and
+   Title.format_for_mcnp_input (truncation to the limit).
    NOT modelled: str.splitlines (done by the caller).  Strings are sequences of latin-1 code points.
    Domain: 7 < W (textwrap raises ValueError for width <= 0 and does not terminate when an indent that is used
    twice exceeds the width; MontePy uses W = 80 / 128 and indents of at most 7 columns + a prefix shorter than W/2).
@@ -286,12 +287,20 @@ Fixpoint wrap_lines (W : nat) (cont : nat) (is_first : bool) (lines : list strin
         end
   end.
 
-(* Message / Title truncation (montepy/input_parser/mcnp_input.py) *)
+(* Message / Title (montepy/input_parser/mcnp_input.py) *)
+(* Title.format_for_mcnp_input: [self.title[0 : line_length - 1]] *)
 Definition title_line (W : nat) (title : string) : string := take (W - 1) title.
+(* Title.__init__: self._title = title.rstrip() *)
+Definition title_init (title : string) : string := rstrip_py title.
+(* Message.__init__: every line is rstrip()ped *)
+Definition message_init (lines : list string) : list string := map rstrip_py lines.
+(* Message.format_for_mcnp_input: "MESSAGE: " + lines[0][0 : line_length - 10], the other lines [0 : line_length - 1],
+   then the blank line that ends the block *)
+Definition message_prefix : string := "MESSAGE: ".
 Definition message_lines (W : nat) (lines : list string) : list string :=
   match lines with
   | [] => [""]
-  | l0 :: r => ("MESSAGE: " ++ take (W - 10) l0) :: List.app (map (take (W - 1)) r) [""]
+  | l0 :: r => (message_prefix ++ take (W - 10) l0) :: List.app (map (take (W - 1)) r) [""]
   end.
 
 (* ---- wire ----
@@ -323,6 +332,15 @@ Definition show_wres (r : wres) : string :=
   end.
 Definition run_Wrap (req : string) : string :=
   match fwords req with
+  | ["message"; w; init; ls] =>
+      (* init = 1: the lines as given to Message(...); 0: the lines of an existing object (after an edit) *)
+      match parse_nat w with
+      | Some W =>
+          let lines := if String.eqb ls "-" then [] else map parse_line (fsplit "/"%char ls) in
+          show_list (fun x => if String.eqb x "" then "x" else hex_encode x)
+                    (message_lines W (if String.eqb init "1" then message_init lines else lines))
+      | None => "parse:err"
+      end
   | [w; f; c; ls] =>
       match parse_nat w, parse_nat c with
       | Some W, Some cont =>
@@ -331,7 +349,7 @@ Definition run_Wrap (req : string) : string :=
       | _, _ => "parse:err"
       end
   | ["title"; w; t] =>
-      match parse_nat w with Some W => hex_encode (title_line W (hex_decode t)) | None => "parse:err" end
+      match parse_nat w with Some W => hex_encode (title_line W (title_init (parse_line t))) | None => "parse:err" end
   | ["splitws"; t] => show_list hex_encode (split_ws (hex_decode t))
   | ["iscomment"; t] => if is_comment (if String.eqb t "x" then "" else hex_decode t) then "1" else "0"
   | ["munge"; t] => hex_encode (munge (hex_decode t))
